@@ -47,7 +47,13 @@ SeedLoop ==    \* rules that hand the cursor back (return -1) all along a long t
        [kind |-> "pos", rules |-> << R(1, <<1, 2, 2>>, <<[NoItem EXCEPT !.shift = 40], NoItem>>, NoCon, -1) >>] >> }
 LoopTexts == UNION {[1..n -> {1, 2}] : n \in {9, 10, 11}}
 SpecSeededLoop == InitSeededTexts(SeedLoop, LoopTexts) /\ [][Next]_vars
-Seeds == SeedMarks \cup SeedChains \cup SeedRecycle \cup SeedOrder
+SeedSkip ==    \* passes that only have work to do because an earlier pass of the same call put their glyphs there: with
+               \* pass-skip bits in the font the engine may leave a pass out only while no glyph it names has appeared
+  { << [kind |-> "sub", rules |-> << R(0, <<3>>, <<I("glyph", g1)>>, NoCon, 0) >>],
+       [kind |-> "sub", rules |-> << R(0, <<c2>>, <<I("glyph", 4)>>, NoCon, 0) >>],
+       [kind |-> "sub", rules |-> << R(0, <<4, 4>>, <<I("delete", 0), NoItem>>, NoCon, 0) >>],
+       [kind |-> "pos", rules |-> << R(0, <<4>>, <<[NoItem EXCEPT !.shift = 40]>>, NoCon, 0) >>] >> : g1 \in {1, 2}, c2 \in {1, 2} }
+Seeds == SeedMarks \cup SeedChains \cup SeedRecycle \cup SeedOrder \cup SeedSkip
 SpecSeeded == InitSeeded(Seeds) /\ [][Next]_vars
 SpecSeededF == InitSeeded(SeedFeat) /\ [][Next]_vars
 =============================================================================
